@@ -299,6 +299,19 @@ def _first(col, ctx, np):
         cv = [sum((r[s] - cm[s]) ** 2 for r in ex) / n for s in range(L)]
         if all(v > 0 for v in cv):
             cmp('standardize', lambda: pr.standardize(rows), [[float(v - cm[s]) / float(cv[s]) ** 0.5 for s, v in enumerate(r)] for r in ex], exact=False, tol=2e-6)
+        # a preprocess object is applied to every batch of a Container: the SAME StandardizeOn / CenterOn instance on three different batches (4 rows, 3 other rows, 2 rows);
+        # every output is the formula on exactly that batch (what is not given - mean and/or std - is the statistic of the current batch, never of an earlier one)
+        f64 = rows.astype('float64')
+        nr_ = f64.shape[0]
+        batches = [f64, f64[[nr_ - 1, 1 % nr_, 0]] * 0.5 + 1.0, f64[[2 % nr_, 0]] + 7.0]
+        for label, kw in (('StandardizeOn()', {}), ('StandardizeOn(mean)', {'mean': means[0]}), ('StandardizeOn(std)', {'std': std})):
+            inst = pr.StandardizeOn(precision='float64', **kw)
+            for bi_, b in enumerate(batches):
+                m_ = kw.get('mean', b.mean(axis=0)); s_ = kw.get('std', b.std(axis=0))
+                if np.any(np.asarray(s_) == 0): continue
+                cmp('%s reused, batch %d' % (label, bi_ + 1), lambda: inst(b.astype(dt) if bi_ == 0 else b), ((b.astype(dt).astype('float64') if bi_ == 0 else b) - m_) / s_, exact=False, tol=2e-6)
+            if getattr(inst, 'mean', None) is not kw.get('mean') or getattr(inst, 'std', None) is not kw.get('std'):
+                col.violation('C18/first-order/StandardizeOn/configuration-changed', '%s: the mean / std configuration of the instance changed by being applied to batches' % label, {'kind': 'first', 'name': label, 'dt': dt})
         if dt == 'uint8':
             cmp('serialize_bit', lambda: pr.serialize_bit(rows), [[(int(v) >> (7 - b)) & 1 for v in r for b in range(8)] for r in rows])
         import cmath
